@@ -20,6 +20,10 @@ def check(prog, ctx):
     viol = oracles.clauses(env, "C02.")
     r, exp = oracles.reference(prog, env)
     viol += oracles.compare_with_reference(env, r, exp, "C02.propagation")
+    for cid, seen in sorted(env.cwc_seen.items()):
+        c = env.ctxs.get(cid)
+        if c is not None and c.k % 4 >= 2 and not (isinstance(seen, engine.HExc) and list(seen.key) == ["cwc", c.k]):
+            viol.append(("C02.propagation", "call_with_context: the function failed inside the context, whose __exit__ was told %r instead of the failure" % (seen,)))
     # uncaught -> the task's own failure and the exception raised by value(): identity
     root = env.recs[prog["root"]["id"]]
     if env.outcome[0] == "exc" and isinstance(getattr(env, "raised", None), engine.HExc) and prog.get("conv") != "wrapper":
